@@ -36,6 +36,16 @@ pub struct Snapshot {
     pub mem: Box<[u16; 0x10000]>,
 }
 
+/// Machine state at a hook point; memory as the diff against the previous sample of this sink.
+#[derive(Debug, Clone)]
+pub struct Sample {
+    pub reg: [u16; 8],
+    pub pc: u16,
+    pub cc: u8,
+    /// `(address, new value)` for every word that changed since the previous sample.
+    pub memd: Vec<(u16, u16)>,
+}
+
 /// One raw hook event, in program order.
 #[derive(Debug, Clone)]
 pub enum Event {
@@ -43,8 +53,9 @@ pub enum Event {
     Loop { pc: u16, attached: bool },
     /// An instruction finished executing. `pc` is the address it was fetched from.
     Exec { pc: u16, instr: u16 },
-    /// Top of the status loop in `Debugger::next_action`.
-    Status,
+    /// Top of the status loop in `Debugger::next_action`, with the breakpoint list
+    /// `(address, predefined)` in list order.
+    Status { bps: Vec<(u16, bool)> },
     /// A command line was handed to the command parser (raw text, untrimmed).
     CmdLine(String),
     /// Text written to program output (stdout).
@@ -74,9 +85,11 @@ pub struct Sink {
     pub fuel: Option<u64>,
     pub input: VecDeque<u8>,
     pub keys: Option<VecDeque<Key>>,
-    pub events: Vec<(Event, Option<Snapshot>)>,
+    pub events: Vec<(Event, Option<Sample>)>,
     /// Take a state sample with every `Loop`, `Exec` and `Status` event.
     pub sample_state: bool,
+    /// Memory as of the previous sample (diff base).
+    pub shadow: Option<Box<[u16; 0x10000]>>,
 }
 
 thread_local! {
@@ -99,7 +112,7 @@ pub fn arm(fuel: Option<u64>, input: &[u8], sample_state: bool) {
 }
 
 /// Disarm and return everything that was recorded.
-pub fn disarm() -> Vec<(Event, Option<Snapshot>)> {
+pub fn disarm() -> Vec<(Event, Option<Sample>)> {
     with_sink(|s| {
         s.armed = false;
         s.keys = None;
@@ -115,7 +128,49 @@ pub fn set_keys(keys: Vec<Key>) {
     with_sink(|s| s.keys = Some(keys.into_iter().collect()));
 }
 
-fn push(event: Event, snap: Option<Snapshot>) {
+/// Set the memory against which the first sample is diffed.
+pub fn set_shadow(mem: &[u16; 0x10000]) {
+    with_sink(|s| s.shadow = Some(Box::new(*mem)));
+}
+
+fn sample(state: &crate::runtime::RunState) -> Option<Sample> {
+    if !wants_state() {
+        return None;
+    }
+    let snap = state.verif_snapshot();
+    let memd = with_sink(|s| {
+        let mut memd = Vec::new();
+        match &mut s.shadow {
+            Some(shadow) => {
+                if shadow[..] != snap.mem[..] {
+                    for a in 0..0x10000usize {
+                        if shadow[a] != snap.mem[a] {
+                            memd.push((a as u16, snap.mem[a]));
+                            shadow[a] = snap.mem[a];
+                        }
+                    }
+                }
+            }
+            None => {
+                for a in 0..0x10000usize {
+                    if snap.mem[a] != 0 {
+                        memd.push((a as u16, snap.mem[a]));
+                    }
+                }
+                s.shadow = Some(snap.mem.clone());
+            }
+        }
+        memd
+    });
+    Some(Sample {
+        reg: snap.reg,
+        pc: snap.pc,
+        cc: snap.cc,
+        memd,
+    })
+}
+
+fn push(event: Event, snap: Option<Sample>) {
     with_sink(|s| {
         if s.armed {
             s.events.push((event, snap));
@@ -148,7 +203,7 @@ pub fn loop_top(state: &crate::runtime::RunState, attached: bool) {
         }
         None => false,
     });
-    let snap = wants_state().then(|| state.verif_snapshot());
+    let snap = sample(state);
     push(
         Event::Loop {
             pc: state.pc(),
@@ -165,16 +220,20 @@ pub fn executed(state: &crate::runtime::RunState, pc: u16, instr: u16) {
     if !is_armed() {
         return;
     }
-    let snap = wants_state().then(|| state.verif_snapshot());
+    let snap = sample(state);
     push(Event::Exec { pc, instr }, snap);
 }
 
-pub fn status_loop(state: &crate::runtime::RunState) {
+pub fn status_loop(state: &crate::runtime::RunState, breakpoints: &crate::debugger::Breakpoints) {
     if !is_armed() {
         return;
     }
-    let snap = wants_state().then(|| state.verif_snapshot());
-    push(Event::Status, snap);
+    let snap = sample(state);
+    let bps = breakpoints
+        .iter()
+        .map(|bp| (bp.address, bp.is_predefined))
+        .collect();
+    push(Event::Status { bps }, snap);
 }
 
 pub fn detach() {
